@@ -10,7 +10,7 @@ from vfw.core import CellResult, close
 from vfw import refs
 
 PROPERTY = "C20"
-RULE = ("cells = physical_dim x N x bc x order x dx (full product inside the bound); every cell compares the "
+RULE = ("configuration cells = physical_dim x N x bc x order x dx (full product inside the bound) + history cells = all sequences (length <= 3, thorough 4) of hyper-parameter/location assignments and reads on one live prior object; every cell compares the "
         "whole operator matrix (complete basis) and the GMRF/LMRF/CMRF log-densities on basis+generic points "
         "with a dense index-formula reference; a cell is non-trivial when the operator was constructed "
         "(not refused) and has at least one off-diagonal stencil entry or a prior was evaluated")
@@ -36,6 +36,20 @@ def cells(tier, seed):
                     for dx in ((1.0, 0.5) if pd == 1 else (1.0,)):
                         yield {"pd": pd, "N": N, "bc": bc, "order": order, "dx": dx, "cat": refs.cat(seed),
                                "npts": 1 if tier == "quick" else 3}
+    for c in _hist_cells(tier, seed):
+        yield c
+
+
+def _hist_cells(tier, seed):
+    """E1 part: all attribute-assignment / read sequences on ONE live prior object (non-initial states)."""
+    for fam in ("GMRF", "LMRF", "CMRF"):
+        for pd, N in ((1, 4), (2, 2)) if tier == "quick" else ((1, 3), (1, 6), (2, 2), (2, 3)):
+            for bc in ("zero", "neumann", "periodic"):
+                for order in ((1, 2) if fam == "GMRF" else (1,)):
+                    if bc != "zero" and order == 2:
+                        continue      # rank/log-determinant known findings live in the configuration cells
+                    yield {"hist": fam, "pd": pd, "N": N, "bc": bc, "order": order, "cat": refs.cat(seed),
+                           "depth": 3 if tier == "quick" else 4}
 
 
 def _dense(M):
@@ -47,7 +61,115 @@ def _geom(pd, N):
     return N if pd == 1 else cuqi.geometry.Image2D((N, N))
 
 
+def eval_hist(cell):
+    """All sequences (length <= depth) of {assign hyper-parameter, assign location/mean, read sqrtprec, evaluate} on one
+    live object; after every step the object must agree with the reference model of the values assigned so far."""
+    import itertools
+    import cuqi
+    res = CellResult(cell)
+    fam, pd, N, bc, order, k = cell["hist"], cell["pd"], cell["N"], cell["bc"], cell["order"], cell["cat"]
+    dim = N if pd == 1 else N * N
+    D = refs.fd_ref(N, bc, order, pd)
+    P = D.T @ D
+    facet = "pd=%d,bc=%s,order=%d" % (pd, bc, order)
+    hv = [[2.0, 0.5], [0.25, 3.0], [1.5, 4.0]][k]
+    locs = [refs.dyadic_vec(dim, k + 1, scale=0.125), np.zeros(dim)]
+    x = refs.dyadic_vec(dim, k + 5, scale=0.25)
+    hname = "prec" if fam == "GMRF" else "scale"
+    lname = "mean" if fam == "GMRF" else "location"
+    ops = [("set-%s" % hname, 0), ("set-%s" % hname, 1), ("set-%s" % lname, 0), ("set-%s" % lname, 1), ("read", None), ("eval", None)]
+
+    def build():
+        cls = getattr(cuqi.distribution, fam)
+        if fam == "GMRF":
+            return cls(np.zeros(dim), 1.0, bc_type=bc, order=order, geometry=_geom(pd, N)), {"h": 1.0, "l": np.zeros(dim)}
+        return cls(np.zeros(dim), 1.0, bc_type=bc, geometry=_geom(pd, N)), {"h": 1.0, "l": np.zeros(dim)}
+
+    def ref_logd(model):
+        r = x - model["l"]
+        if fam == "GMRF":
+            return -0.5 * model["h"] * float(r @ P @ r)          # up to the constant
+        Dx = D @ r
+        if fam == "LMRF":
+            return float(np.sum(-np.log(2 * model["h"]) - np.abs(Dx) / model["h"]))
+        return float(np.sum(np.log(model["h"] / np.pi) - np.log(Dx ** 2 + model["h"] ** 2)))
+
+    def observe(obj, model, hist):
+        """Invariants of the live object against the reference model of the assigned values."""
+        v = float(np.asarray(obj.logpdf(x)).ravel()[0])
+        v0 = float(np.asarray(obj.logpdf(model["l"])).ravel()[0])
+        if fam == "GMRF":
+            ok = close(v - v0, ref_logd(model), 1e-8)      # constant-free
+        else:
+            ok = close(v, ref_logd(model), 1e-9)
+        if not ok:
+            res.fail("C20|%s|logpdf-after-assignment|%s" % (fam, facet), "after %s the log-density is not that of the assigned "
+                     "%s/%s through the documented operator" % (hist, hname, lname), focus={"history": hist})
+            return False
+        if fam == "GMRF":
+            S = _dense(obj.sqrtprec)
+            if not close(S.T @ S, model["h"] * P, 1e-5):
+                res.fail("C20|GMRF|sqrtprec-after-assignment|%s" % facet, "after %s sqrtprec^T sqrtprec is not prec * precision "
+                         "operator of the CURRENT prec=%r" % (hist, model["h"]), focus={"history": hist})
+                return False
+            sm = np.asarray(obj.sqrtprecTimesMean).ravel()
+            if not close(sm, S @ model["l"], 1e-8) or not close(sm @ sm, model["h"] * float(model["l"] @ P @ model["l"]), 1e-5):
+                res.fail("C20|GMRF|sqrtprecTimesMean-after-assignment|%s" % facet, "after %s sqrtprecTimesMean is not sqrtprec @ "
+                         "current mean" % (hist,), focus={"history": hist})
+                return False
+        return True
+
+    try:
+        build()
+    except Exception as e:
+        res.refused += 1
+        res.transitions += 1
+        res.state("refused")
+        res.nontrivial = False
+        res.outcomes.add("refused:" + type(e).__name__)
+        return res
+    for L in range(1, cell["depth"] + 1):
+        for seq in itertools.product(range(len(ops)), repeat=L):
+            if ops[seq[-1]][0] in ("read", "eval") and L > 1 and ops[seq[-2]][0] == ops[seq[-1]][0]:
+                continue        # repeated read-only step adds nothing
+            obj, model = build()
+            hist = []
+            good = True
+            for oi in seq:
+                name, arg = ops[oi]
+                hist.append(name if arg is None else "%s[%d]" % (name, arg))
+                res.transitions += 1
+                if name == "read":
+                    if fam == "GMRF":
+                        _ = obj.sqrtprec
+                        _ = obj.sqrtprecTimesMean
+                    else:
+                        _ = obj.logpdf(x)
+                elif name == "eval":
+                    _ = obj.logpdf(x)
+                elif name == "set-" + hname:
+                    setattr(obj, hname, hv[arg])
+                    model["h"] = hv[arg]
+                else:
+                    setattr(obj, lname, locs[arg])
+                    model["l"] = locs[arg]
+                res.state((round(model["h"], 6), tuple(np.round(model["l"], 6))))
+                if not observe(obj, model, list(hist)):
+                    good = False
+                    break
+            res.traces += 1
+            res.evaluations += 1
+            if not good:
+                res.outcomes.add("hist-fail")
+                return res
+    res.outcomes.add("hist:%s:%s" % (fam, facet))
+    res.sample = {"history": hist, "final_model": {"h": model["h"], "l": model["l"]}}
+    return res
+
+
 def eval_cell(cell):
+    if "hist" in cell:
+        return eval_hist(cell)
     import cuqi
     from cuqi.operator import FirstOrderFiniteDifference, SecondOrderFiniteDifference, PrecisionFiniteDifference
     res = CellResult(cell)
